@@ -33,7 +33,7 @@ def floors(tier):
     return {"ruler.ops": 2000000 if q else 50000000, "ruler.raising_mutator_warm": 10000, "ruler.warm_mutations": 50000, "ruler.chains_compared": 1000000,
             "op.enable.raise": 1000, "op.disable.raise": 1000, "op.enableOnly.raise": 1000, "op.at.raise": 500, "op.before.raise": 500, "op.after.raise": 500,
             "ruler.duplicate_name_ops": 5000, "facade.histories": 30000 if q else 600000, "facade.rules_observed": 50000, "facade.raising_ops": 500,
-            "facade.reset_rules_exits": 500, "facade.plugin_rules": 500, "facade.model_checks": 100000, "facade.validation_mode_probes": 3000}
+            "facade.reset_rules_exits": 500, "facade.plugin_rules": 500, "facade.model_checks": 100000, "facade.validation_mode_probes": 3000, "terminator.cases": 700}
 
 
 # ---- (1) sequential model -------------------------------------------------------------------------------------
@@ -559,8 +559,69 @@ def check_case(ctx, case):
         ctx.violation(r[0], f"{r[1]} | preset={case['hist']['preset']} history={ops}", {"kind": "facade", "hist": {"preset": case["hist"]["preset"], "ops": ops}})
 
 
+# ---- (3) named terminator chains are applied as registered: a plug-in block rule whose alt list names some of the chains -------------
+TERM_DOCS = {"P": "x\n%%y\n", "R": "[a]:\n%%u\n", "Q": "> q\n%%z\n", "L": "- i\n%%w\n", "H": "t\n%%v\n===\n"}
+
+
+def _term_md(alts, preset="commonmark"):
+    from markdown_it import MarkdownIt
+    md = MarkdownIt(preset)
+
+    def pct(state, startLine, endLine, silent):
+        pos = state.bMarks[startLine] + state.tShift[startLine]
+        if not state.src.startswith("%%", pos):
+            return False
+        if silent:
+            return True
+        t = state.push("pct", "", 0)
+        t.map = [startLine, startLine + 1]
+        t.content = state.src[pos:state.eMarks[startLine]]
+        state.line = startLine + 1
+        return True
+    md.block.ruler.before("paragraph", "pct", pct, {"alt": list(alts)})
+    return md
+
+
+def _term_outcome(md, src):
+    env = {}
+    toks = md.parse(src, env)
+    return [(t.type, t.content) for t in toks if t.type in ("inline", "pct")], sorted(env.get("references", {}))
+
+
+def terminator_case(ctx, case):
+    """a rule is consulted as a terminator of chain X iff its alt list names X - in every document, whatever else the document
+    contains and in whatever order (each block of a concatenation behaves as it does alone)"""
+    ctx.count("evaluations")
+    ctx.current = case
+    alts, order = case["alts"], case["order"]
+    md = _term_md(alts, case.get("preset", "commonmark"))
+    solo = {k: _term_outcome(md, TERM_DOCS[k]) for k in set(order)}
+    ctx.count("terminator.cases")
+    # the solo outcomes follow from the alt list alone
+    exp = {"P": "paragraph" in alts, "Q": "blockquote" in alts, "L": "paragraph" in alts}
+    for k in set(order) & set(exp):
+        split = any(t == "pct" for t, _ in solo[k][0])
+        if split != exp[k]:
+            ctx.violation("terminator-chain-applied-ne-registered", f"rule with alt {alts}: document {TERM_DOCS[k]!r} gives {solo[k][0]} ('%%' line {'must' if exp[k] else 'must not'} interrupt)", case)
+            return
+    if "R" in order and (solo["R"][1] == ["A"]) != ("reference" not in alts):
+        ctx.violation("terminator-chain-applied-ne-registered", f"rule with alt {alts}: document {TERM_DOCS['R']!r} gives references {solo['R'][1]} {solo['R'][0]}", case)
+        return
+    want_toks, want_refs = [], set()
+    for k in order:
+        want_toks += solo[k][0]
+        want_refs |= set(solo[k][1])
+    got = _term_outcome(md, "\n".join(TERM_DOCS[k] for k in order))
+    ctx.nontrivial("term", tuple(alts), tuple(order), case.get("preset"))
+    if got != (want_toks, sorted(want_refs)):
+        ctx.violation("terminator-chain-applied-ne-registered", f"rule with alt {alts}: blocks {order} in one document give {got}, each alone {want_toks} {sorted(want_refs)}", case)
+
+
 def replay(ctx, case):
-    check_case(ctx, case)
+    if case.get("kind") == "terminator":
+        terminator_case(ctx, case)
+    else:
+        check_case(ctx, case)
 
 
 def run(ctx):
@@ -575,6 +636,17 @@ def run(ctx):
             if obs != md.get_active_rules():
                 ctx.violation("facade-applied-ne-reported", f"fresh {preset}: entered {obs} != reported {md.get_active_rules()}", {"kind": "facade", "hist": {"preset": preset, "ops": []}})
             ctx.count("facade.fresh_presets_observed")
+    import itertools
+    k = 0
+    chains = ["paragraph", "reference", "blockquote", "list"]
+    for n in range(len(chains) + 1):
+        for alts in itertools.combinations(chains, n):
+            for m in (1, 2, 3):
+                for order in itertools.permutations(sorted(TERM_DOCS), m):
+                    for preset in ("commonmark", "js-default"):
+                        k += 1
+                        if ctx.mine(k) and (not ctx.quick or m < 3 or k % 3 == 0):
+                            terminator_case(ctx, {"kind": "terminator", "alts": list(alts), "order": list(order), "preset": preset})
     for k in range(ctx.scale(160000, 4000000)):
         ops = gen_ruler_history(rng)
         warm_then_mut = any(o["op"] == "getRules" for o in ops)
